@@ -347,6 +347,11 @@ class SVGShape:
             field_value = getattr(self, field.name)
             if isinstance(field_value, float):
                 setattr(target, field.name, round(field_value, ndigits))
+        # keep what the constructor guarantees, as re-parsing the rounded shape would
+        # (a rect's corner radii stay within half its rounded sides)
+        post_init = getattr(target, "__post_init__", None)
+        if post_init is not None:
+            post_init()
         return target
 
     def round_multiple(self, multiple_of: float, inplace=False) -> "SVGShape":
